@@ -1071,6 +1071,11 @@ def mk_sub(base, idx):
             c = idx.const()
             if c is not None and c.denominator == 1 and -len(at.args) <= c < len(at.args):
                 return at.args[int(c)]
+        if at.kind == 'str' and isinstance(at.args[0], str):
+            # a character / constant slice of a text literal
+            c = idx.const()
+            if c is not None and c.denominator == 1 and -len(at.args[0]) <= c < len(at.args[0]):
+                return lift(at.args[0][int(c)])
         if at.kind in ('tuple', 'list'):
             # a constant slice of a literal sequence is the literal sub-sequence
             sl = idx.single_atom()
